@@ -226,6 +226,15 @@ fn on_enum(inp: &mut syn::DeriveInput) -> syn::Result<proc_macro2::TokenStream> 
 
     let tag = decode_tag(&enum_attrs);
 
+    // A decoder of an optional field reacts to an unknown variant by skipping one
+    // item, i.e. the variant's value. An index-only enum has no such value, the
+    // index is all there is, so it must be left in place to be skipped.
+    let restore = if index_only {
+        quote!(__d777.set_position(__p778);)
+    } else {
+        quote!()
+    };
+
     Ok(quote! {
         impl #impl_generics minicbor::Decode<'bytes, Ctx> for #name #typ_generics #where_clause {
             fn decode(__d777: &mut minicbor::Decoder<'bytes>, __ctx777: &mut Ctx) -> core::result::Result<#name #typ_generics, minicbor::decode::Error> {
@@ -233,7 +242,10 @@ fn on_enum(inp: &mut syn::DeriveInput) -> syn::Result<proc_macro2::TokenStream> 
                 #check
                 match __d777.u32()? {
                     #(#rows)*
-                    n => Err(minicbor::decode::Error::unknown_variant(n).at(__p778))
+                    n => {
+                        #restore
+                        Err(minicbor::decode::Error::unknown_variant(n).at(__p778))
+                    }
                 }
             }
         }
